@@ -197,6 +197,17 @@ impl OffsetsBase {
         self.outer_pos.len() + self.inner_pos.len()
     }
 
+    /// Return the linear index, in the tensor's element sequence, of the next
+    /// element that will be yielded from the front.
+    ///
+    /// Only valid if `self.len > 0`.
+    fn front_linear_index(&self) -> usize {
+        (0..self.ndim()).fold(0, |index, dim| {
+            let pos = self.pos(dim);
+            index * pos.size() + pos.index()
+        })
+    }
+
     /// Compute the storage offset of an element given a linear index into a
     /// tensor's element sequence.
     fn offset_from_linear_index(&self, index: usize) -> usize {
@@ -303,7 +314,11 @@ impl DoubleEndedIterator for OffsetsBase {
 
         // This is inefficient compared to forward iteration, but that's OK
         // because reverse iteration is not performance critical.
-        let index = self.len - 1;
+        //
+        // The last remaining element is `len - 1` steps after the front
+        // position, which is non-zero if the iterator has been advanced from
+        // the front or is the right half of a split.
+        let index = self.front_linear_index() + self.len - 1;
         let offset = self.offset_from_linear_index(index);
         self.len -= 1;
 
